@@ -261,5 +261,9 @@ def run(rep, tier, seed):
     rep.cov["negative_controls_passed"] = nc
     if not nc:
         raise tlc.TlcError("negative control failed: a corrupted trace was accepted by Trace_C05")
+    # ---- impl -> spec on the repository's own programs, over opaque values (MechSessionGen / Trace_C05g)
+    from areas import c05g
+    nprog = c05g.run(rep, tier, seed)
+    rep.cov["traces_validated_against_impl"] += nprog
     rep.add_samples([{"stmts": [S.stmt(a) for a, _ in (p + tl)]} for p, tl, _ in walks])
     rep.assumptions += ["TLC 1.8.0", "harness projection", "lib/sessionlib.py renderer/projection"]
